@@ -101,7 +101,9 @@ def signature_typed(cls):
         if "structure" in k.__dict__:
             impl = k
             break
-    if impl is AbstractPart:
+    if impl is AbstractPart or (impl is not None and impl.__module__.startswith("moclo.core")):
+        # a class that DECLARES a signature is a part type, whichever core class its structure() resolves to (a base-class
+        # order that lets a signature-free structure win is exactly what C05 forbids)
         return True
     # kit overrides that merely call super().structure()
     try:
